@@ -322,3 +322,36 @@ func VerifH19f() {
 	}
 	nd.Reach("H19f.end")
 }
+
+// VerifH19g: many records. N version records (N just above the round numbers page sizes tend to
+// have: 1025, 2049) are written through the real repository and manager and read back with GetAll:
+// every one of them comes back, once, decoded to what was encoded.
+func VerifH19g() {
+	mgr, err := badger.New(nd.ScratchDir())
+	nd.Assert(err == nil, "H19g.open")
+	if err != nil {
+		return
+	}
+	r := New(mgr)
+	ctx := context.Background()
+	N := []int{1025, 2049}[nd.Choice("records", 2)]
+	nd.Bound("H19g.records", N)
+	hex := "0123456789abcdef"
+	cid := func(i int) string {
+		return "00112233-4455-6677-8899-aabbccdd" + string([]byte{hex[i>>12&15], hex[i>>8&15], hex[i>>4&15], hex[i&15]})
+	}
+	for i := 0; i < N; i++ {
+		f := model.File{Key: cid(i)[32:], TxId: model.MainTxId, ContentId: cid(i), Seq: sequence.Seq(uint64(i + 1))}
+		nd.Assert(r.Set(ctx, f) == nil, "H19g.set")
+	}
+	all, err := r.GetAll(ctx)
+	nd.Assert(err == nil, "H19g.getall-ok")
+	nd.Assert(len(all) == N, "H19g.every-record-comes-back")
+	if err != nil || len(all) != N {
+		return
+	}
+	for i := range all { // key order = content id order = i
+		nd.Assert(all[i].ContentId == cid(i) && all[i].Seq == sequence.Seq(uint64(i+1)) && all[i].Key == cid(i)[32:], "H19g.record")
+	}
+	nd.Reach("H19g.end")
+}
